@@ -265,3 +265,15 @@ def relUpOk (h : Hist) (rows : List Id) (label : Option String) (n : Nat) (r : I
   | some _ => some false
 
 end Spec.Rev
+
+namespace Spec.Rev
+open Model.Rev
+
+/-- `-N` / `label@-N` given to `get_revisions`: every answer lies exactly `n` down-revision
+    links below a head of the history (a head carrying the label when one is named); `none` =
+    the answer "base" -/
+def belowHeadsOk (h : Hist) (label : Option String) (n : Nat) (results : List (Option Id)) : Bool :=
+  let hs := realHeadsOf h
+  results.all (fun r => hs.any (fun hd => stepsDown h n hd r))
+
+end Spec.Rev
